@@ -159,6 +159,8 @@ def build_stream(sc, repo, only_conn=None):
     dialect = dict(P.PRESETS[d]) if isinstance(d, str) else dict(d)
     if cfg.get('mark'):
         dialect['mark'] = cfg['mark']
+    if cfg.get('time_spelling'):
+        dialect['time_spelling'] = cfg['time_spelling']
     w = make_world(sc, repo)
     st = Stream()
     st.world = w
